@@ -114,6 +114,23 @@ func cfgFor(profile string, i int) map[string]interface{} {
 	return nil
 }
 
+// scarceProfile: few providers, high replica counts, short timeouts and mostly silent providers:
+// the timeout machinery re-assigns, partially re-assigns, gives up and refunds.
+func scarceProfile() chain.Profile {
+	p := payProfile()
+	p.Name = "scarce"
+	p.Nodes = []string{"a01", "a02", "a03", "a04"}
+	p.LateNodes = []string{"a05"}
+	p.Weights = map[string]int{"Blocks": 40, "StoreNew": 10, "StoreUpdate": 3, "Complete": 12, "Cancel": 1, "Terminate": 1,
+		"Renew": 2, "Claim": 3, "CreateLate": 2, "Reset": 3, "RemoveVstorage": 2, "AddVstorage": 2}
+	p.Sizes = []int64{1000, 10000}
+	p.Durs = []int64{3600, 7200}
+	p.Timeouts = []int64{5, 20, 100, 1800}
+	p.MaxData = 4
+	p.Replicas = []int64{2, 3, 3, 4}
+	return p
+}
+
 func profileByName(n string) chain.Profile {
 	switch n {
 	case "pay":
@@ -124,6 +141,12 @@ func profileByName(n string) chain.Profile {
 		return authProfile()
 	case "reward":
 		return rewardProfile()
+	case "scarce":
+		return scarceProfile()
+	case "did":
+		p := payProfile()
+		p.Name = "did"
+		return p
 	}
 	die("unknown profile %s", n)
 	return chain.Profile{}
